@@ -168,7 +168,7 @@ fn finish(st: &Stats, obs: &mut Obs) {
 
 fn oracle_generated(case: &[u8], obs: &mut Obs) -> Result<(), String> {
     let mut c = Choice::new(case);
-    let o = RichOpts { override_chance: 40, corrupt_chance: 24, max_gap: 24, tables_early: !c.chance(40), allow_compressed: true, max_names: 6, shrink_chance: 70 };
+    let o = RichOpts { override_chance: 40, corrupt_chance: 24, max_gap: 24, tables_early: !c.chance(40), allow_compressed: true, max_names: 6, shrink_chance: 70, many_sections: false };
     let r = filegen::rich_file(&mut c, &o);
     let w = &r.built.bytes;
     let mut marks = vec![r.built.shoff, r.built.phoff, r.built.shoff + r.built.shdrs.len() * elfw::shdr_size(r.spec.enc), r.built.phoff + r.built.phdrs.len() * elfw::phdr_size(r.spec.enc)];
